@@ -26,8 +26,9 @@ Record lexcfg : Set := {
   (* Artefacts of the automaton that logos 0.14 generates for the token rules (not of the rules):  *)
   q_dash : bool;      (* an identifier directly followed by a dangling [-] takes the [-] into the token *)
   q_kwcolon : bool;   (* a keyword directly followed by [:] (no package name) is lexed as an identifier *)
-  q_pkgzone : bool    (* a package name directly followed by a dangling [-] or [:]: behaviour of the
-                         generated automaton not modelled; the lexer reports [LUnmodelled] *) }.
+  q_pkgzone : bool    (* a package name directly followed by a dangling [-] or [:], or a prefix of a
+                         keyword directly followed by a dangling [-]: the behaviour of the generated
+                         automaton is not modelled; the lexer reports [LUnmodelled] *) }.
 
 (* ------------------------------------------------------------------ screening *)
 
@@ -315,6 +316,13 @@ Fixpoint best_symbol (tbl : list (str * token)) (s : str) : option (token * nat)
       else rest
   end.
 
+(** [k] is a prefix of (or equal to) some keyword of the table. *)
+Fixpoint is_kw_prefix (k : str) (tbl : list (str * token)) : bool :=
+  match tbl with
+  | [] => false
+  | (x, _) :: r => starts_with k x || is_kw_prefix k r
+  end.
+
 Inductive scanres : Set :=
 | ScanTok (k : token) (n : nat)            (* kind, length in scalar values *)
 | ScanErr (e : lexerr) (bytes : N)         (* error class, byte length of its span *)
@@ -344,7 +352,7 @@ Definition scan_token (cfg : lexcfg) (fuel : nat) (s : str) : scanres :=
                                end in
             if head_is c_minus rest1 then
               (* the identifier rule stopped before a [-] that no word follows *)
-              if q_pkgzone cfg && negb (token_eqb kw_or_ident TIdent) then ScanUnmodelled  (* keyword, then [-] *)
+              if q_pkgzone cfg && is_kw_prefix (firstn n1 s) (keywords cfg) then ScanUnmodelled
               else if q_dash cfg then ScanTok TIdent (S n1) else ScanTok kw_or_ident n1
             else
             let n2 := seg_loop fuel au c_colon rest1 in
